@@ -1,11 +1,13 @@
 """C10 — notes converge across clones and are never lost by sync."""
 import json
 import os
+import random
 
 from .base import Prop
 from ..engine import Exec
 from ..ledger import HUMAN
 from ..oracle import Notes
+from ..sched import run_concurrent
 from .. import noteparse
 
 
@@ -43,13 +45,15 @@ class C10(Prop):
                    "interleaved; within one command the notes thread is serialised by BLOCKING_MAX_THREADS=1)",
                    "notes for commits a repository does not have are allowed"]
     expected_probes = ["step.commit", "step.push", "step.fetch", "step.pull", "fault.net_down", "fault.kill", "converged.checked",
-                       "first_sync_without_notes_ref", "notes_from_two_clones", "foreign_note.written"]
+                       "first_sync_without_notes_ref", "notes_from_two_clones", "foreign_note.written", "step.concurrent",
+                       "conc.interleaved", "conc.thread_scheduled"]
 
     def header(self, rng, tier, index):
         return {"world": {"mode": "wrapper", "use_simgit": True}, "sessions": ["sa", "sb", "sc"],
                 "cfg": {"n_clones": rng.choice([2, 2, 3]), "steps": rng.randint(8, 16 if tier == "quick" else 28),
                         "early_clone": rng.random() < 0.6, "faults": rng.random() < 0.5,
-                        "foreign": rng.randint(5, 9) if rng.random() < 0.3 else 0},
+                        "foreign": rng.randint(5, 9) if rng.random() < 0.3 else 0,
+                        "conc": rng.random() < 0.4},
                 "init": {"files": {}}, "next_id": 100}
 
     # ------------------------------------------------------------------ world
@@ -84,6 +88,7 @@ class C10(Prop):
         else:
             yield clone_op(names[0])
         fault_at = rng.randint(2, cfg["steps"] - 2) if cfg["faults"] else -1
+        n_conc = 0
         for step in range(cfg["steps"]):
             for n in names:
                 if n not in cloned and rng.random() < 0.5:
@@ -109,6 +114,20 @@ class C10(Prop):
                 yield {"op": "sync", "kind": "plain_push", "clone": n2, "dt": 3000}
                 yield {"op": "sync", "kind": "foreign_note", "clone": n2, "dt": 3000}
                 yield {"op": "sync", "kind": rng.choice(["fetch", "pull", "push"]), "clone": n2, "dt": 3000, "form": 0}
+                continue
+            if cfg.get("conc") and len(cloned) >= 2 and env is None and step >= 2 and n_conc < 2 and rng.random() < 0.25:
+                n_conc += 1
+                # a concurrent episode: two or three clones run a sync command AT THE SAME TIME; the controller
+                # interleaves their internal git calls (and the calls of each command's notes thread)
+                who = rng.sample(cloned, min(len(cloned), rng.choice([2, 2, 3])))
+                for n2 in who:
+                    if rng.random() < 0.7:
+                        yield {"op": "sync", "kind": "commit", "clone": n2, "file": "f%d.txt" % rng.randint(0, 2),
+                               "own_branch": rng.random() < 0.6, "session": "s" + n2, "lines": rng.randint(1, 3), "dt": 3000}
+                parts = [{"clone": n2, "cmd": rng.choice(["push", "push", "push", "fetch", "pull", "pull_rebase"]),
+                          "form": rng.choice([0, 0, 1, 3])} for n2 in who]
+                yield {"op": "sync", "kind": "concurrent", "parts": parts, "dt": 3000,
+                       "policy": rng.choice(["random", "random", "pct"]), "sched_seed": rng.getrandbits(32)}
                 continue
             if kind == "commit":
                 own_branch = rng.random() < 0.4
@@ -154,6 +173,8 @@ class C10(Prop):
             return {"code": 0}
         if kind == "foreign_note":
             return self.foreign_note(ex, op["clone"])
+        if kind == "concurrent":
+            return self.concurrent(ex, op)
         if kind == "plain_push":
             repo = ex.repos[op["clone"]]
             branch = w.raw_git(repo, "rev-parse", "--abbrev-ref", "HEAD").out.strip()
@@ -223,6 +244,55 @@ class C10(Prop):
             return {"code": r.code, "err": r.err}
         raise ValueError(kind)
 
+    def concurrent(self, ex, op):
+        """several clones sync at the same time: real processes parked at every internal git call (and every call of
+        their notes threads) and released one at a time by the seeded controller; the schedule is stored in the op"""
+        w = ex.w
+        st = ex.gen_state
+        gitw = os.path.join(w.bin, "git")
+        cmds = []
+        for part in op["parts"]:
+            n = part["clone"]
+            repo = ex.repos[n]
+            branch = w.raw_git(repo, "rev-parse", "--abbrev-ref", "HEAD").out.strip()
+            cmd = part["cmd"]
+            if cmd == "push":
+                argv = {0: ["push", "-q", "-u", "origin", branch], 1: ["push", "-q", "origin", branch],
+                        3: ["push", "-q", "--no-verify", "origin", "HEAD:" + branch]}[part.get("form", 0)]
+            elif cmd == "fetch":
+                argv = ["fetch", "-q", "origin"]
+            else:
+                argv = ["pull", "-q", "--no-edit"] + (["--rebase"] if cmd == "pull_rebase" else ["--no-rebase"]) + ["origin", "main"]
+            cmds.append((n, [gitw] + argv, repo, {}))
+        replaying = op.get("schedule") is not None
+        run = run_concurrent(w, cmds, rng=None if replaying else random.Random(op["sched_seed"]),
+                             choices=op.get("schedule") if replaying else None, policy=op.get("policy", "random"))
+        op["schedule"] = run["schedule"]
+        seq = [l for l, _p in run["schedule"]]
+        if sum(1 for a, b in zip(seq, seq[1:]) if a != b) >= 2:
+            ex.probe("conc.interleaved")
+        ex.probe("step.concurrent")
+        if run["stats"]["thread_spawn"]:
+            ex.probe("conc.thread_scheduled")
+        if run["stats"]["blocked_fallback"]:
+            ex.probe("conc.blocked_fallback")
+        from ..engine import in_progress
+        for part in op["parts"]:
+            n = part["clone"]
+            repo = ex.repos[n]
+            st_ = in_progress(w, repo)
+            if st_ == "rebase":
+                w.git(repo, "rebase", "--abort")
+            elif st_ == "merge":
+                w.git(repo, "merge", "--abort")
+            # whatever this command achieved while racing, the clone has to push and fetch again, sequentially,
+            # before convergence is demanded of it
+            st["pushed"][n] = False
+            st["fetched_after"][n] = -1
+        if run["stalled"]:
+            w.hang = True
+        return {"code": 0, "codes": {l: r["code"] for l, r in sorted(run["results"].items())}}
+
     def foreign_note(self, ex, owner):
         """somebody else writes, on the remote, a (different, well-formed) note for a commit whose author has
         published the commit but not yet its note"""
@@ -282,6 +352,10 @@ class C10(Prop):
         if actor in maps:
             for c, note in maps[actor].items():
                 owner.setdefault(c, (actor, note))
+        for part in op.get("parts") or []:
+            # (a pull --rebase inside a concurrent episode creates rewritten commits with notes of their own)
+            for c, note in maps.get(part["clone"], {}).items():
+                owner.setdefault(c, (part["clone"], note))
         contested = st.get("contested", {})
         for k in sorted(maps):
             for c, note in maps[k].items():
@@ -330,7 +404,9 @@ class C10(Prop):
         return viol
 
     def sample(self, trace):
-        return {"cfg": trace.get("cfg"), "steps": ["%s:%s" % (o.get("clone") or o.get("name"), o.get("kind") or o["op"])
+        return {"cfg": trace.get("cfg"), "steps": ["%s:%s" % (o.get("clone") or o.get("name") or
+                                                              "+".join("%s.%s" % (p["clone"], p["cmd"]) for p in o.get("parts", [])),
+                                                              o.get("kind") or o["op"])
                                                    + ("!" if o.get("env") else "") for o in trace["ops"]]}
 
     def abstract(self, ex, trace):
@@ -347,6 +423,8 @@ class C10(Prop):
             if o["op"] == "clone":
                 names.add(o["name"])
             elif o.get("clone") and o["clone"] not in names:
+                return False
+            elif any(p["clone"] not in names for p in o.get("parts") or []):
                 return False
         return bool(ops) and ops[-1].get("kind") == "converge_check"
 
